@@ -37,13 +37,32 @@ def run_seed(verif_seed, stratum, index):
 
 
 def gen_args(rng, large=False):
+    """One argument tuple per run (reused by every query of the run). Half of
+    the runs take the round values above, the others draw freely: radii from
+    bond lengths to 12 A (the Hirshfeld default), any slab corner pair within
+    +-2 cells, any origin, supercells up to 3 along an axis."""
+    if rng.random() < 0.5:
+        return {
+            "r": rng.choice(RADII[:3] if large else RADII),
+            "origin": [rng.choice([0.0, 0.3, -0.7, 1.4, 0.5]) for _ in range(3)],
+            "bounds": rng.choice(BOUNDS),
+            "atoms": rng.choice(ATOM_GROUPS),
+            "mol_i": rng.randint(0, 3),
+            "size": rng.choice(SIZES[:3] if large else SIZES),
+        }
+    lo = [rng.randint(-2, 1) for _ in range(3)]
+    hi = [l + rng.randint(0, 2) for l in lo]
+    size = [1, 1, 1]
+    size[rng.randrange(3)] = rng.choice([1, 2, 3])
+    if not large and rng.random() < 0.5:
+        size[rng.randrange(3)] = 2
     return {
-        "r": rng.choice(RADII[:3] if large else RADII),
-        "origin": [rng.choice([0.0, 0.3, -0.7, 1.4, 0.5]) for _ in range(3)],
-        "bounds": rng.choice(BOUNDS),
-        "atoms": rng.choice(ATOM_GROUPS),
-        "mol_i": rng.randint(0, 3),
-        "size": rng.choice(SIZES[:3] if large else SIZES),
+        "r": round(rng.uniform(1.0, 4.5 if large else 12.0), 3),
+        "origin": [round(rng.uniform(-1.5, 2.5), 4) for _ in range(3)],
+        "bounds": [lo, hi],
+        "atoms": sorted(rng.sample(range(4), rng.randint(1, 3))),
+        "mol_i": rng.randint(0, 5),
+        "size": size,
     }
 
 
@@ -340,15 +359,17 @@ SLOWPAIR_SOURCES = [
         "occupation": None, "via": "cif",
     },
 ]  # fmt: skip
-N_SLOWPAIRS = len(SLOWPAIR_SOURCES) * len(SLOWPAIR_FIRST) * len(SLOWPAIR_MID) * len(SLOW)
+# (source, mid) combinations: a setting switch only where it can succeed
+SLOWPAIR_COMBOS = [(0, None), (1, None), (1, "switch")]
+N_SLOWPAIRS = len(SLOWPAIR_COMBOS) * len(SLOWPAIR_FIRST) * len(SLOW)
 
 
 def slowpair_of(index):
     i = index % N_SLOWPAIRS
     i, q = divmod(i, len(SLOW))
-    i, m = divmod(i, len(SLOWPAIR_MID))
     i, p = divmod(i, len(SLOWPAIR_FIRST))
-    return SLOWPAIR_SOURCES[i % len(SLOWPAIR_SOURCES)], SLOWPAIR_FIRST[p], SLOWPAIR_MID[m], SLOW[q]
+    si, mid = SLOWPAIR_COMBOS[i % len(SLOWPAIR_COMBOS)]
+    return SLOWPAIR_SOURCES[si], SLOWPAIR_FIRST[p], mid, SLOW[q]
 
 
 def slowpair_run(verif_seed, index, stratum="slowpairs"):
